@@ -4819,3 +4819,307 @@ func c09NonContiguousRetransmission(c *Ctx) {
 	c.cut(R, "verbatim:frames that do not reassemble are still serialised", &Cut{Fn: f, StartBlocks: starts, Target: isReturn, Barrier: serialises},
 		"two non-adjacent lost Initial datagrams put two separate CRYPTO ranges into one retransmission packet; refusing it ends the connection and the ClientHello is never completed")
 }
+
+// storesFieldIn: f (or a closure it defers / declares) stores to field fld.
+func storesField(f *ssa.Function, fld *types.Var) bool {
+	found := false
+	eachInstr(f, func(in ssa.Instruction) {
+		if st, ok := in.(*ssa.Store); ok && fieldOfAddress(st.Addr) == fld {
+			found = true
+		}
+	})
+	return found
+}
+
+// C10.11: the plan index advances once per Initial datagram whichever frame builder is in use: in
+// MarshalInitialPacketPayload every return beyond the flight-planned branch has passed the increment of
+// initialDatagramIdx (directly, or as a deferred closure). InitialPackets[i] and the per-datagram builders are indexed
+// by it; with a nil / pass-through / plain builder it used to stay 0 and every datagram got InitialPackets[0].
+func c10PlanIndexAdvances(c *Ctx) {
+	const R = "C10.11"
+	f := c.fn("", "uPacketPacker", "MarshalInitialPacketPayload")
+	idx := c.fld("", "uPacketPacker", "initialDatagramIdx")
+	fp := c.fld("", "uPacketPacker", "flightPlanned")
+	advances := func(in ssa.Instruction) bool {
+		switch x := in.(type) {
+		case *ssa.Store:
+			return fieldOfAddress(x.Addr) == idx
+		case *ssa.Defer:
+			if mc, ok := x.Call.Value.(*ssa.MakeClosure); ok {
+				return storesField(mc.Fn.(*ssa.Function), idx)
+			}
+		}
+		return false
+	}
+	c.Floor(R, "increments of initialDatagramIdx in MarshalInitialPacketPayload", countInstr(f, advances), 1)
+	c.cut(R, "advance:every datagram built outside a planned flight advances the plan index", &Cut{Fn: f, Target: isReturn, Barrier: advances, NoInline: true,
+		Edge: EdgeRel(BoolTrue(Load(fp)), false)},
+		"InitialPackets[1..] (CRYPTO split, exact packet size, PN length list position) are never applied for a nil, empty or plain frame builder: every datagram is laid out as datagram 0")
+}
+
+// C10.12: QUICRandomFrames measures what it will send: every call of QUICFrames.build in buildInternal passes the
+// function's own baseOffset (the dry run that sizes the PADDING included) — the varint of a CRYPTO offset grows at 64
+// and 16384, so a dry run at offset 0 undercounts every datagram after the first.
+func c10DryRunUsesRealOffset(c *Ctx) {
+	const R = "C10.12"
+	f := c.fn("", "QUICRandomFrames", "buildInternal")
+	build := c.obj("", "QUICFrames", "build")
+	n := 0
+	eachInstr(f, func(in ssa.Instruction) {
+		if !CallsTo(build)(in) {
+			return
+		}
+		n++
+		as := in.(ssa.CallInstruction).Common().Args
+		c.Check(len(as) == 3 && ParamV("baseOffset")(as[2]), R, fmt.Sprintf("offset:build #%d in buildInternal is given the datagram's base offset", n), c.P.InstrPos(in),
+			"the frame list is measured and serialised at the same CRYPTO offsets, so PADDING brings the payload to exactly Length")
+	})
+	c.Floor(R, "calls of QUICFrames.build in buildInternal", n, 2)
+}
+
+// C10.13: the per-packet packet-number-length list counts from the packet number the Initial space really starts at:
+// both are taken from InitialPacketSpec.initialPN() (which maps out-of-range values to 0).
+func c10PNLengthListBase(c *Ctx) {
+	const R = "C10.13"
+	f := c.funcVar("", "newUClientConnection")
+	ipn := c.obj("", "InitialPacketSpec", "initialPN")
+	n := 0
+	eachInstr(f, func(in ssa.Instruction) {
+		cl, ok := in.(*ssa.Call)
+		if !ok || cl.Call.StaticCallee() == nil || cl.Call.StaticCallee().Name() != "SetInitialPacketNumberLengths" {
+			return
+		}
+		n++
+		c.Check(len(cl.Call.Args) >= 2 && CallTo(ipn, -1)(cl.Call.Args[1]), R, "origin:the PN-length list is based at initialPN()", c.P.InstrPos(in),
+			"a raw InitPacketNumber above 2^62-1 (space seeded with 0) would make every packet look like it is past the end of the list, or before its start")
+	})
+	c.Floor(R, "SetInitialPacketNumberLengths calls in newUClientConnection", n, 1)
+}
+
+// C05.12: the server's 0-RTT read keys live until 3 PTO after the handshake completed — not before it has: in both
+// Get1RTTOpener copies the store zeroRTTOpener = nil lies beyond the "handshakeCompleteTime is set" edge.
+// (time.Since(zero time) is always > 3 PTO: one early or junk short-header datagram dropped the keys.)
+func c05ZeroRTTKeysKeptUntilHandshakeComplete(c *Ctx) {
+	const R = "C05.12"
+	n := 0
+	for _, recv := range []string{"cryptoSetup", "uCryptoSetup"} {
+		f := c.fn(hsk, recv, "Get1RTTOpener")
+		zo := c.fld(hsk, recv, "zeroRTTOpener")
+		hct := c.fld(hsk, recv, "handshakeCompleteTime")
+		drops := func(in ssa.Instruction) bool {
+			st, ok := in.(*ssa.Store)
+			return ok && fieldOfAddress(st.Addr) == zo && IsNil()(st.Val)
+		}
+		n += countInstr(f, drops)
+		isZero := func(v ssa.Value) bool {
+			cl, ok := v.(*ssa.Call)
+			if !ok || cl.Call.StaticCallee() == nil || cl.Call.StaticCallee().Name() != "IsZero" || len(cl.Call.Args) != 1 {
+				return false
+			}
+			return Load(hct)(cl.Call.Args[0])
+		}
+		c.cut(R, "kept:"+recv+".Get1RTTOpener drops the 0-RTT keys only after the handshake completed", &Cut{Fn: f, Target: drops, NoInline: true,
+			Edge: EdgeRel(BoolTrue(isZero), true)},
+			"a reordered 1-RTT packet or a junk short-header datagram before handshake completion discards the 0-RTT opener; the client's 0-RTT packets still in flight can no longer be opened")
+	}
+	c.Floor(R, "places that drop the 0-RTT opener in Get1RTTOpener", n, 2)
+}
+
+// C05.13: every packet that is sealed has a header-protection sample inside it: each function that calls
+// encryptPacket compares the payload with 4 - packetNumberLen (and pads) on every path to that call — the long header,
+// short header and spec-built Initial copies agree.
+func c05SampleInsidePacket(c *Ctx) {
+	const R = "C05.13"
+	enc := c.obj("", "packetPacker", "encryptPacket")
+	n := 0
+	for _, cs := range c.P.CallSites(enc) {
+		if cs.Kind != "call" {
+			continue
+		}
+		f := cs.Fn
+		n++
+		// a comparison one of whose operands is 4 - x
+		minCheck := func(in ssa.Instruction) bool {
+			b, ok := in.(*ssa.BinOp)
+			if !ok || !isCmp(b.Op) {
+				return false
+			}
+			isFourMinus := func(v ssa.Value) bool {
+				v = stripConv(v)
+				s, ok := v.(*ssa.BinOp)
+				return ok && s.Op == token.SUB && ConstI(4)(s.X)
+			}
+			return isFourMinus(b.X) || isFourMinus(b.Y)
+		}
+		site := cs.Instr
+		c.cut(R, "sample:"+f.Name()+" checks payload ≥ 4 - packet number length before sealing", &Cut{Fn: f, NoInline: true,
+			Target: func(in ssa.Instruction) bool { return in == site }, Barrier: minCheck},
+			"RFC 9001 §5.4.2: with fewer than 4 bytes of packet number + payload the 16-byte sample is taken from stale buffer bytes past the packet; the peer can never open it (PING-only Initial PTO probe of a flight-builder spec)")
+	}
+	c.Floor(R, "callers of encryptPacket", n, 3)
+}
+
+// C19.11: the response writer does not emit connection-specific fields: every WriteField in writeHeader's loop over
+// the handler's header map lies beyond the EqualFold tests for connection, proxy-connection, transfer-encoding,
+// upgrade and keep-alive — the same set the request writer drops and parseHeaders rejects (writers and parser agree).
+func c19ResponseWriterDropsConnectionSpecific(c *Ctx) {
+	const R = "C19.11"
+	f := c.fn("http3", "responseWriter", "writeHeader")
+	hdr := c.fld("http3", "responseWriter", "header")
+	// WriteField calls inside the range over w.header: those whose Name operand is not a constant
+	inLoop := func(in ssa.Instruction) bool {
+		cl, ok := in.(*ssa.Call)
+		if !ok || cl.Call.StaticCallee() == nil || cl.Call.StaticCallee().Name() != "WriteField" {
+			return false
+		}
+		fieldConst := false
+		eachInstr(f, func(x ssa.Instruction) {
+			st, ok := x.(*ssa.Store)
+			if !ok {
+				return
+			}
+			fa, ok := st.Addr.(*ssa.FieldAddr)
+			if !ok || len(cl.Call.Args) < 2 {
+				return
+			}
+			if u, ok := cl.Call.Args[1].(*ssa.UnOp); ok && u.X == fa.X && fa.Field == 0 {
+				if _, isC := st.Val.(*ssa.Const); isC {
+					fieldConst = true
+				}
+			}
+		})
+		return !fieldConst
+	}
+	_ = hdr
+	c.Floor(R, "WriteField calls for the handler's fields in writeHeader", countInstr(f, inLoop), 1)
+	for _, name := range []string{"connection", "proxy-connection", "transfer-encoding", "upgrade", "keep-alive"} {
+		name := name
+		fold := func(v ssa.Value) bool {
+			cl, ok := v.(*ssa.Call)
+			if !ok || cl.Call.StaticCallee() == nil || cl.Call.StaticCallee().Name() != "EqualFold" || len(cl.Call.Args) != 2 {
+				return false
+			}
+			for _, a := range cl.Call.Args {
+				if k, ok := a.(*ssa.Const); ok && k.Value != nil && k.Value.Kind() == constant.String && constant.StringVal(k.Value) == name {
+					return true
+				}
+			}
+			return false
+		}
+		c.cut(R, "strip:the response writer does not send "+name, &Cut{Fn: f, Target: inLoop, NoInline: true, Edge: EdgeRel(BoolTrue(fold), true)},
+			"a handler's w.Header().Set(\"Connection\", \"close\") goes on the wire; this package's own parseHeaders rejects the response as malformed and the client resets the stream (H3_MESSAGE_ERROR)")
+	}
+}
+
+// C19.12: a Content-Length field that was seen is validated as a number, whatever its value: in parseHeaders every
+// path from the place the field's value is captured to a successful return passes strconv.ParseUint (an empty value
+// used to skip the check: the emptiness of the captured string doubled as "not seen").
+func c19ContentLengthAlwaysValidated(c *Ctx) {
+	const R = "C19.12"
+	f := c.fn("http3", "", "parseHeaders")
+	captured := func(in ssa.Instruction) bool {
+		// the block that takes the first content-length value: a φ-free marker is the comparison of the previous value
+		// with the new one (contradicting lengths) — the capture is its sibling branch; use the switch on the name
+		b, ok := in.(*ssa.BinOp)
+		if !ok || b.Op != token.EQL {
+			return false
+		}
+		k, ok := b.Y.(*ssa.Const)
+		return ok && k.Value != nil && k.Value.Kind() == constant.String && constant.StringVal(k.Value) == "content-length"
+	}
+	var starts []*ssa.BasicBlock
+	eachInstr(f, func(in ssa.Instruction) {
+		if !captured(in) {
+			return
+		}
+		blk := in.Block()
+		if ifi, ok := blk.Instrs[len(blk.Instrs)-1].(*ssa.If); ok && ifi.Cond == in.(ssa.Value) {
+			starts = append(starts, blk.Succs[0])
+		}
+	})
+	c.Floor(R, "places where parseHeaders recognises a content-length field", len(starts), 1)
+	if len(starts) == 0 {
+		return
+	}
+	okReturn := func(in ssa.Instruction) bool {
+		r, ok := in.(*ssa.Return)
+		return ok && IsNil()(retResults(r)[len(retResults(r))-1])
+	}
+	parses := func(in ssa.Instruction) bool {
+		cl, ok := in.(*ssa.Call)
+		return ok && cl.Call.StaticCallee() != nil && cl.Call.StaticCallee().Name() == "ParseUint"
+	}
+	c.cut(R, "numeric:a content-length field that was seen is parsed as a number before the section is accepted", &Cut{Fn: f, StartBlocks: starts, Target: okReturn, Barrier: parses, TrackFlags: true, NoInline: true},
+		"content-length: \"\" (also twice) is accepted with ContentLength -1 and the field dropped, while every other non-numeric value is rejected")
+}
+
+// C08.9: a duration read from a peer-controlled varint saturates instead of wrapping: in readNumericTransportParameter
+// every multiplication time.Duration(val) * unit is dominated by a comparison of val with a constant (the unit's
+// overflow bound, or the parameter's own maximum). C08.10: max_idle_timeout = 0 means "no timeout" like omission: the
+// store lies beyond val > 0.
+func c08DurationsSaturate(c *Ctx) {
+	const R = "C08.9"
+	f := c.fn("internal/wire", "TransportParameters", "readNumericTransportParameter")
+	n := 0
+	var val ssa.Value
+	eachInstr(f, func(in ssa.Instruction) {
+		m, ok := in.(*ssa.BinOp)
+		if !ok || m.Op != token.MUL {
+			return
+		}
+		nt := namedOf(m.Type())
+		if nt == nil || nt.Obj().Name() != "Duration" {
+			return
+		}
+		var src ssa.Value
+		for _, pr := range [][2]ssa.Value{{m.X, m.Y}, {m.Y, m.X}} {
+			if _, isC := pr[1].(*ssa.Const); isC {
+				if cv, ok := pr[0].(*ssa.Convert); ok {
+					src = cv.X
+				}
+			}
+		}
+		if src == nil {
+			return
+		}
+		n++
+		val = src
+		// clamped operand: min(val, K)
+		guarded := MinMaxOf("min", Any(), func(v ssa.Value) bool { _, ok := stripConv(v).(*ssa.Const); return ok })(src)
+		for d := m.Block(); d != nil && d.Idom() != nil; d = d.Idom() {
+			id := d.Idom()
+			ifi, ok := id.Instrs[len(id.Instrs)-1].(*ssa.If)
+			if !ok || len(d.Preds) != 1 {
+				continue
+			}
+			if b, ok := ifi.Cond.(*ssa.BinOp); ok && isCmp(b.Op) && b.Op != token.EQL && b.Op != token.NEQ {
+				_, cy := b.Y.(*ssa.Const)
+				_, cx := b.X.(*ssa.Const)
+				if (b.X == src && cy) || (b.Y == src && cx) {
+					guarded = true
+				}
+			}
+		}
+		c.Check(guarded, R, fmt.Sprintf("saturate:duration multiplication #%d in readNumericTransportParameter is bounded", n), c.P.InstrPos(in),
+			"time.Duration(val)*unit wraps modulo 2^64: a huge max_idle_timeout becomes negative (clamped to 5 s), a huge min_ack_delay becomes a few ns and passes the min_ack_delay > max_ack_delay rejection")
+	})
+	c.Floor(R, "duration multiplications in readNumericTransportParameter", n, 3)
+	_ = val
+	mit := c.fld("internal/wire", "TransportParameters", "MaxIdleTimeout")
+	parsedVarint := func(v ssa.Value) bool {
+		ex, ok := stripConv(v).(*ssa.Extract)
+		if !ok || ex.Index != 0 {
+			return false
+		}
+		cl, ok := ex.Tuple.(*ssa.Call)
+		return ok && cl.Call.StaticCallee() != nil && cl.Call.StaticCallee().Name() == "Parse" && cl.Call.StaticCallee().Pkg != nil && cl.Call.StaticCallee().Pkg.Pkg.Name() == "quicvarint"
+	}
+	stores := func(in ssa.Instruction) bool {
+		st, ok := in.(*ssa.Store)
+		return ok && fieldOfAddress(st.Addr) == mit
+	}
+	c.Floor("C08.10", "stores of MaxIdleTimeout in readNumericTransportParameter", countInstr(f, stores), 1)
+	c.cut("C08.10", "zero:max_idle_timeout 0 is not turned into the minimum timeout", &Cut{Fn: f, Target: stores, NoInline: true,
+		Edge: OrEdge(EdgeRel(Rel{Op: token.GTR, X: parsedVarint, Y: ConstI(0)}, false), EdgeRel(Rel{Op: token.NEQ, X: parsedVarint, Y: ConstI(0)}, false))},
+		"RFC 9000 §18.2: an explicit 0 means no idle timeout, like omitting the parameter; clamping it to MinRemoteIdleTimeout gives the peer the shortest timeout we accept, and parse → marshal → parse turns 0 into 5 s")
+}
